@@ -5,6 +5,7 @@ LEVEL = 'other'
 
 
 def build(ctx):
+    ctx.task('contracts.pipeline:task_pipeline')      # assemble() establishes what each pass contract assumes
     common.pass_tasks(ctx, ['transform_compressible'])
     common.encoder_tasks(ctx, lambda m: m.startswith('c.'), parts=('legal',))
 
@@ -12,6 +13,7 @@ def build(ctx):
 def bounded(ctx):
     common.suites(ctx, ['cedge', 'mix', 'dist', 'far', 'val', 'li', 'pseudo', 'align', 'data', 'rand'], {'accept'})
     ctx.task('bounded.tasks:stale_task', ['accept'])
+    ctx.task('bounded.exprs:alias_accept_task')
 
 
 def explanation(ctx):
